@@ -313,6 +313,32 @@ func dumpParams(e *Engine) {
 	}
 	fmt.Println("}")
 	fmt.Println()
+	fmt.Println("// result types of the reviewed tree's top-level functions, by position (restoreDroppedResults)")
+	fmt.Println("var baselineResults = map[string][]string{")
+	{
+		var rk []string
+		rby := map[string]*ssa.Function{}
+		for _, fn := range e.SMFuncs() {
+			if fn.Parent() == nil && fn.Signature.Results().Len() > 0 {
+				k := FuncKey(fn)
+				if rby[k] == nil {
+					rk = append(rk, k)
+				}
+				rby[k] = fn
+			}
+		}
+		sort.Strings(rk)
+		for _, k := range rk {
+			var parts []string
+			rs := rby[k].Signature.Results()
+			for i := 0; i < rs.Len(); i++ {
+				parts = append(parts, fmt.Sprintf("%q", typeKey(rs.At(i).Type())+ptrMark(rs.At(i).Type())))
+			}
+			fmt.Printf("\t%q: {%s},\n", k, strings.Join(parts, ", "))
+		}
+	}
+	fmt.Println("}")
+	fmt.Println()
 	fmt.Println("// every top-level function of the state-machine packages in the reviewed tree")
 	fmt.Println("var baselineFuncs = map[string]bool{")
 	var all []string
